@@ -837,9 +837,16 @@ pub fn query_probe(s: &Sim) -> StateObs {
     }
     users.sort();
     users.dedup();
+    let total_open: usize = s.m.batches.values().map(|b| b.requests.len()).sum();
     for usr in users {
         let mut got: Vec<(u64, String, u128)> = s.w.requests_of(&usr).into_iter().map(|r| (r.batch_id, r.user, r.amount.u128())).collect();
+        let reads = mwsim::kv::reads();
         o.probes += 1;
+        // smart queries are gas-metered by real nodes: the per-user query may only read what it returns (the
+        // simulator counts storage records read), not everybody's requests
+        if total_open >= 100 && reads > 16 + 6 * got.len() as u64 {
+            o.violations.push(viol("C17", "requests.cost_grows_with_all_requests", format!("UnstakeRequests({usr}) returned {} entries but read {reads} storage records ({total_open} requests are open in total): on a metered node the query stops working once enough requests are open", got.len())));
+        }
         got.sort();
         let mut want: Vec<(u64, String, u128)> = s.m.batches.values().filter_map(|b| b.requests.get(&usr).map(|a| (b.id, usr.clone(), *a))).collect();
         want.sort();
